@@ -179,6 +179,18 @@ impl DocumentBuilder {
                 attribute_builder.prefix_span,
                 xot,
             )?;
+            // two differently prefixed attributes can have the same expanded name
+            if attribute_spans.iter().any(|(n, _, _)| *n == name_id) {
+                let attr_name = if attribute_builder.prefix.is_empty() {
+                    attribute_builder.name
+                } else {
+                    format!("{}:{}", attribute_builder.prefix, attribute_builder.name)
+                };
+                return Err(ParseError::DuplicateAttribute(
+                    attr_name,
+                    attribute_builder.name_span,
+                ));
+            }
             // if we see xml:id, check that they aren't a duplicate
             // and keep track of all node ids that have an xml:id
             if name_id == self.xml_id_id {
